@@ -112,7 +112,7 @@ func TestVerifC09Ed25519Decode(t *testing.T) {
 		case "low-order":
 			// 8-torsion: L·P for a drawn curve point P
 			for i := 0; ; i++ {
-				e := vlib.LE(drawBelowP(t, fmt.Sprintf("y%d", i)), 32)
+				e := vlib.LE(verifC09DrawBelowP(t, fmt.Sprintf("y%d", i)), 32)
 				if r := decode.Ed25519Decode(e); r.OK {
 					T := decode.Ed25519Mul(decode.L25519, r.P)
 					b = decode.Ed25519Encode(T)
@@ -124,7 +124,7 @@ func TestVerifC09Ed25519Decode(t *testing.T) {
 			}
 		case "ref-point":
 			for i := 0; ; i++ {
-				b = vlib.LE(drawBelowP(t, fmt.Sprintf("y%d", i)), 32)
+				b = vlib.LE(verifC09DrawBelowP(t, fmt.Sprintf("y%d", i)), 32)
 				if rapid.Bool().Draw(t, "sign") {
 					b[31] |= 0x80
 				}
@@ -145,7 +145,7 @@ func TestVerifC09Ed25519Decode(t *testing.T) {
 	})
 }
 
-func drawBelowP(t *rapid.T, label string) *big.Int {
+func verifC09DrawBelowP(t *rapid.T, label string) *big.Int {
 	b := make([]byte, 40)
 	vlib.FillRandom(t, b, label)
 	v := new(big.Int).SetBytes(b)
